@@ -91,10 +91,11 @@ func VerifC10Clean() {
 			e2 := t.repo.ProcessHeader(h.ctx, hd)
 			verifAssert(errClass(e1) == errClass(e2), "verdict-differs-after-clean")
 		case 1:
-			before := h.observeBest(h.repo, prune)
+			// Clean itself must not change the status of any accepted header, however deep
+			before := h.observeRepo(h.repo)
 			err := h.repo.Clean(h.ctx)
 			verifAssert(err == nil, "clean-returns-error")
-			verifAssert(h.observeBest(h.repo, prune) == before, "clean-changed-reported-state")
+			verifAssert(h.observeRepo(h.repo) == before, "clean-changed-reported-state")
 			verifReach("cleaned")
 			if len(h.repo.branches) > 2 {
 				verifReach("cleaned-with-3-branches")
